@@ -33,6 +33,10 @@ R5 (K2) _handle_lock_contention: force_break(other_holder) is reachable only whe
    other_holder.is_lock_holder_known_dead() and the locks.steal_dead option hold; break_lock breaks only after the user confirmed the examined holder info.
 R6 (K10) src/lockdir.rs is_lock_holder_known_dead: is_local_pid_dead is the tail call and is preceded by early
    `return false` guards on hostname != ours, user != ours and a missing pid.
+R6 (Rust-lite, K10) crates/osutils/src/lib.rs:is_local_pid_dead reports a holder as dead only for the ESRCH outcome of
+   kill(pid, 0). (third-round seed)
+R4c (K4) only unlock, force_break and force_break_corrupt rename self._held_dir away; a helper that does so must be
+   reached through force_break* only. (third-round seed)
 Added while testing against seeded changes: R5b break_lock hands force_break the holder info peeked before the prompt
 (no re-peek after the confirmation).
 Does not decide: interleavings, nor exclusivity of the transport's rename.
@@ -137,6 +141,34 @@ def run(ctx):
     dels = calling(g, attr=DELETES)
     k1_before(ctx, "R3-delete-after-rename", where, g, ren, dels, "unlock deletes only after the rename to the tmp name")
 
+    # ---- R6 (Rust-lite): a local holder is "known dead" only when its pid does not exist ------------------------------
+    # crates/osutils/src/lib.rs:is_local_pid_dead decides whether a lock may be stolen without asking.  Of the outcomes of
+    # kill(pid, 0) only ESRCH ("no such process") may yield true: EPERM means a process exists under another uid (the
+    # holder comparison is by user *name*), any other error means "don't know".
+    from ..rustlite import RustFile
+
+    OS_RS = "crates/osutils/src/lib.rs"
+    body_ = RustFile(repo, OS_RS).fn_body("is_local_pid_dead")
+    w_rs = f"{OS_RS}:is_local_pid_dead"
+    ctx.require("match" in body_ and "ESRCH" in body_, f"{w_rs}: the kill() outcome match was not found")
+    arms = re.findall(r"([^\n;{}]*?)=>\s*(true|false|\{[^{}]*\})\s*,?", body_)
+    trues = [pat.strip() for pat, val in arms if re.search(r"\btrue\b", val)]
+    ctx.check("R6-known-dead-only-when-absent", w_rs, bool(arms) and bool(trues) and all("ESRCH" in t for t in trues) and len(re.findall(r"\btrue\b", body_)) == len(trues), f"only the ESRCH outcome of kill(pid, 0) reports the holder as dead ({[a[0].strip() for a in arms]})", construct=str(trues), message=f"is_local_pid_dead answers true for {[t for t in trues if 'ESRCH' not in t] or 'an outcome outside the match arms'}: a live lock holder running under another uid (same user name, e.g. via sudo -E) is taken for dead and its lock is stolen while it is held")
+    # ---- R4c: who may move the held directory aside (K4) --------------------------------------------------------
+    # Only unlock (its own lock) and the two force_break* methods (after peek-and-compare, checked below) rename
+    # self._held_dir away.  A further function that does so — e.g. the tail of force_break split off as a helper — is a
+    # way to move a lock aside without the comparison for every caller that does not go through force_break.
+    MOVERS = {"unlock", "force_break", "force_break_corrupt"}
+    lcls = repo.cls(LD, "LockDir")
+    movers = {}
+    for item in lcls.body:
+        if isinstance(item, ast.FunctionDef) and any(call_attr(c) == "rename" and len(c.args) == 2 and norm(c.args[0]) == "self._held_dir" for c in calls_in(item)):
+            movers[item.name] = item
+    for name in sorted(set(movers) - MOVERS):
+        callers = sorted(i_.name for i_ in lcls.body if isinstance(i_, ast.FunctionDef) and any(call_attr(c) == name and call_recv(c) == "self" for c in calls_in(i_)))
+        unchecked = [c_ for c_ in callers if c_ not in ("force_break", "force_break_corrupt")]
+        ctx.check("R4c-who-moves-the-lock", f"{LD}:LockDir.{name}", not unchecked, f"LockDir.{name} (moves the held directory aside) is reached only through force_break*", construct=f"called from {callers}", message=f"LockDir.{name} renames the held lock directory away and is called from {unchecked} without force_break's peek-and-compare: a lock that changed hands since it was examined (e.g. between the dead-holder check and the steal) is moved aside, the later holder loses a live lock")
+    ctx.check("R4c-who-moves-the-lock", f"{LD}:LockDir", MOVERS & set(movers) == MOVERS or bool(set(movers) - MOVERS), f"the held directory is renamed away by {sorted(movers)}")
     # ---- R4 / R4b --------------------------------------------------------------
     for meth, param, pre_check in (("force_break", "dead_holder_info", True), ("force_break_corrupt", "corrupt_info_content", False)):
         fn, g, where = fn_cfg(ctx, LD, f"LockDir.{meth}")
@@ -223,6 +255,8 @@ def _branch_only_raises(g, t, label):
 
 
 MUTANTS = [
+    Mutant("EPERM taken for a dead holder", "crates/osutils/src/lib.rs", "        Err(nix::Error::EPERM) => false, // Exists, though not ours.", "        Err(nix::Error::EPERM) => true, // pid recycled by somebody else", expect="R6-known-dead-only-when-absent"),
+    Mutant("steal path moves the dead lock aside itself", LD, "                self.force_break(other_holder)\n                self._trace(\"stole lock from dead holder\")", "                self.transport.rename(self._held_dir, self.path + \"/stolen.tmp\")\n                self._trace(\"stole lock from dead holder\")", expect="R4c-who-moves-the-lock"),
     Mutant("contention handler marks the lock held", LD, "                self._trace(\"... contention, %s\", e)\n                other_holder = self.peek()", "                self._trace(\"... contention, %s\", e)\n                self._lock_held = True\n                other_holder = self.peek()", expect=["R1-held-after-rename", "R1-no-raise-after-held"]),
     Mutant("lock marked held before the rename", LD, "        while True:\n            try:\n                self.transport.rename(tmpname, self._held_dir)\n                break", "        self._lock_held = True\n        while True:\n            try:\n                self.transport.rename(tmpname, self._held_dir)\n                break", expect=["R1-held-after-rename", "R1-no-raise-after-held"]),
     Mutant("unlock deletes held/info in place", LD, "            self.transport.rename(self._held_dir, tmpname)\n            self._lock_held = False\n            self.transport.delete(tmpname + self.__INFO_NAME)", "            self.transport.delete(self._held_info_path)\n            self.transport.rename(self._held_dir, tmpname)\n            self._lock_held = False", expect=["R2-no-delete-under-held", "R3-delete-after-rename"]),
